@@ -5,6 +5,8 @@
 (*            renders with the caches emptied first (fields f_...), for one (widget, size, focus) = key;   *)
 (*            keep = 1: the environment keeps the returned canvas (it enters `held`)              *)
 (*   rows   : rows(size, focus) with the cache available (c_rows) and computed afresh (f_rows)    *)
+(*   query  : a size-dependent question (cursor coordinates, preferred column, ends visible) answered  *)
+(*            by the live tree (c_val) and by the same tree with the caches emptied first (f_val)   *)
 (*   drop   : the environment releases its i-th held canvas                                       *)
 (*   check  : every held canvas read again (now)                                                  *)
 (*   op     : a public mutator / key / mouse press / gc was applied (nothing to judge)            *)
@@ -23,6 +25,7 @@ Init == /\ tid \in 1..Len(Traces) /\ l = 0 /\ ok = TRUE /\ why = "-"
 Verdict(e) ==
   CASE e.t = "render" -> RenderVerdict(e, prev[e.key])
     [] e.t = "rows" -> RowsVerdict(e)
+    [] e.t = "query" -> QueryVerdict(e)
     [] e.t = "check" -> HeldVerdict(held, e.now)
     [] e.t = "drop" -> IF e.i < 1 \/ e.i > Len(held) THEN "harness_drop_index" ELSE "-"
     [] e.t = "op" -> "-"
